@@ -39,6 +39,8 @@ class TypeNormalizer:
             t = object
         elif t is inspect._empty:
             t = object
+        elif t is None:
+            t = type(None)
         elif t in UnionTypes:
             return type[t]
         elif isinstance(t, typing._AnnotatedAlias):
